@@ -276,7 +276,8 @@ def check_case(acc, case):
 
 def cases(tier, seed):
     q = tier == "quick"
-    alph = (0, 4)
+    # (0, 3): with (0, 4) every CUSUM / L2 score at bandwidth 2 is an integer, which hides integer truncation
+    alph = (0, 3)
     for name in dets.DETECTORS:
         if name == "MVCAPA":
             continue
@@ -312,7 +313,7 @@ def shards(tier, seed):
 def bounds(tier, seed):
     return {"detectors": list(dets.DETECTORS), "scorers": list(scorer_menu()),
             "representations_p1": len(REPS_P1), "representations_p1_reduced": len(REPS_P1_SMALL), "representations_p2": len(REPS_P2),
-            "data": "all (0,4) series n=6 (full grid), n=7 (reduced grid; thorough also n=8); 2-column (0,4) n=4 (thorough also 5); scorers on all (0,1,3) series n=5 (6)",
+            "data": "all (0,3) series n=6 (full grid), n=7 (reduced grid; thorough also n=8); 2-column (0,3) n=4 (thorough also 5); scorers on all (0,1,3) series n=5 (6)",
             "pipelines": ["fit(R).predict/transform/transform_scores(R)", "fit(canonical).predict(R)", "fit(R[:n-2]).update(R[n-2:]).predict(R)"]}
 
 
